@@ -16,7 +16,8 @@ package main
 //   string  : hex of its bytes        bool : "1"/"0"        int : decimal
 //   []string: "n=<len>:" followed by the element hex strings joined by ",", e.g. n=3:61,,62 (n=0: is empty)
 //   (a []string result is only ever the sole result, so the "," are unambiguous)
-//   Instead of that the runner returns: "transpile-err", "timeout", "stderr:<hex of stderr>",
+//   Instead of that the runner returns: "transpile-err" (or "transpile-err:<detail>" for an empty error, an error with
+//   a script, or the in-process watchdog's timeout/panic), "timeout", "stderr:<hex of stderr>",
 //   "exit:<code>" (non-zero exit, silent stderr), "badout:<hex of stdout>" (stdout does not have the shape
 //   the printing protocol produces), "bad-case" (malformed case), "unencodable-arg".
 //
@@ -639,7 +640,10 @@ func strlibEval(name string, fields []string) string {
 	real := materialise(srcDir, mainV, []progFile{{mainV, src}})
 	t := transpileTo(real, "bash")
 	if !strings.HasPrefix(t, "ok:") {
-		return "transpile-err"
+		if t == "err" {
+			return "transpile-err"
+		}
+		return "transpile-err:" + t // err-empty, err-with-script, or the watchdog's timeout / panic
 	}
 	script := filepath.Join(srcDir, "script.sh")
 	if os.WriteFile(script, []byte(unhx(t[3:])), 0755) != nil {
